@@ -13,6 +13,7 @@ import (
 type Stats struct {
 	mu           sync.Mutex
 	Property     string
+	Rule         string
 	Evaluations  int
 	Aborted      int
 	NonTrivial   int
@@ -111,6 +112,7 @@ func (s *Stats) AddBulk(n, d int, label string) {
 
 type statsOut struct {
 	Property           string          `json:"property"`
+	Rule               string          `json:"rule"`
 	Evaluations        int             `json:"evaluations"`
 	Aborted            int             `json:"aborted_foreign_panic"`
 	NonTrivial         int             `json:"nontrivial"`
@@ -136,7 +138,7 @@ type failureOut struct {
 func (s *Stats) write(path string, fails []failureOut) error {
 	s.mu.Lock()
 	defer s.mu.Unlock()
-	out := statsOut{Property: s.Property, Evaluations: s.Evaluations, Aborted: s.Aborted, NonTrivial: s.NonTrivial,
+	out := statsOut{Property: s.Property, Rule: s.Rule, Evaluations: s.Evaluations, Aborted: s.Aborted, NonTrivial: s.NonTrivial,
 		DistinctNonTrivial: len(s.Distinct) + s.bulkDistinct, Labels: s.Labels, FactTotals: s.FactTotals, Kinds: s.Kinds,
 		Samples: s.Samples, Extra: s.Extra, Exhaustive: s.Exhaustive, WallS: time.Since(s.Start).Seconds(), Failures: fails}
 	if len(s.Distinct) <= 200000 {
